@@ -78,6 +78,13 @@ func (f *HTTPHandler) ServeHTTP(w http.ResponseWriter, req *http.Request) {
 		w.Write([]byte(ProbeResponse))
 		return
 	}
+	// The outbound transport may still be reading the request body while the
+	// response is written. Without full duplex the HTTP/1.1 server closes the
+	// request body at the first response write, the transport then tears the
+	// backend connection down and the response is cut short. (Not supported
+	// and not needed on HTTP/2: the error is ignored.)
+	_ = http.NewResponseController(w).EnableFullDuplex()
+
 	f.reverseProxy.ServeHTTP(w, req)
 }
 
